@@ -159,6 +159,15 @@ def _check_chain(region_post, pre_rec, S, new, errs, tag):
     inner_pre = pre_rec["inner"]
     chain = pre_rec["chain"]
     inner_post = hier.canon_fields(region_post.subregion)
+    if not S and new in region_post._jump_targets:
+        # S empty: the region got the new block appended; the copy of its arcs in
+        # the exiting chain must have it too
+        for name in chain:
+            b = inner_post.get(name)
+            if b is not None and new not in b["edges"]:
+                errs.append(("stale-exiting-chain", "S empty: region %s now continues to %s but its exiting-chain block %s has %s" % (
+                    region_post.name, new, name, b["edges"])))
+                break
     for name in sorted(set(inner_pre) | set(inner_post)):
         a, b = inner_pre.get(name), inner_post.get(name)
         if a is None or b is None:
